@@ -762,7 +762,10 @@ func flowScenarioCfg(x *explore.X, depth int, reduced bool) {
 		y.s.sendHeaders(1, hdr(":status", "200"), false, http2.PriorityParam{}, 0)
 		synctest.Wait()
 		y.s.sendHeaders(3, hdr(":status", "200"), false, http2.PriorityParam{}, 0)
+		synctest.Wait()
+		y.c.sendHeaders(7, reqHeaders("/7"), false, http2.PriorityParam{}, 0) // answered by the event A:HEADERS(s7,...)
 	}
+	opened7 := false
 	if !y.oracle("setup") {
 		return
 	}
@@ -825,6 +828,18 @@ func flowScenarioCfg(x *explore.X, depth int, reduced bool) {
 				ended[3] = true
 			}})
 		}
+		if !opened7 {
+			// a header block on ANOTHER stream that shares a field with s3's trailers: header compression is
+			// connection-wide, so the order in which blocks are encoded must be the order in which they are sent
+			evs = append(evs, event{"A:HEADERS(s7,shares-a-field-with-the-trailers)", func() {
+				if dir == 0 {
+					a.sendHeaders(7, append(reqHeaders("/7"), hpack.HeaderField{Name: "x-trailer", Value: "t"}), false, http2.PriorityParam{}, 0)
+				} else {
+					a.sendHeaders(7, hdr(":status", "200", "x-trailer", "t"), false, http2.PriorityParam{}, 0)
+				}
+				opened7 = true
+			}})
+		}
 		for _, s := range []uint32{1, 3} {
 			s := s
 			for _, n := range []int{1, w} {
@@ -844,7 +859,7 @@ func flowScenarioCfg(x *explore.X, depth int, reduced bool) {
 				}})
 			}
 		}
-		x.State(y.stateKey(fmt.Sprintf("flow d%d w%d t%v e%v%v", dir, w, tight, ended[1], ended[3])), depth-step)
+		x.State(y.stateKey(fmt.Sprintf("flow d%d w%d t%v e%v%v o%v", dir, w, tight, ended[1], ended[3], opened7)), depth-step)
 		ev := evs[x.ChooseFree(fmt.Sprintf("event%d", step), len(evs))]
 		hist += ev.name + " "
 		x.Logf("%s", ev.name)
